@@ -110,7 +110,7 @@ claim("C15", "TLC model checking of the CIF parser state machine + trace validat
       "quote-aware tokeniser, ParseValue with uncertainty stripping); as-built deviations are named and used only by --explain. MC_Cif exhaustively checks "
       "Parse(Ser(d)) = d with the parser actions taken step by step for all small data sets (<= 2 blocks, <= 3 items, <= 3 cells, a 10-value alphabet incl. negative "
       "ints, integer-valued decimals, uncertainty forms, strings with blanks/commas/quotes/double blanks): 616k states quick, ~15M thorough. Seeded random dictionaries, "
-      "the repository's CIF files and parse_value forms go through the real Cif(d).to_string()/Cif.from_string; TLC checks block names, item names, row alignment, value "
+      "the repository's CIF files, the dictionaries written by real Crystal objects (Crystal.to_cif_data: the CIF leg of C10 at byte level) and parse_value forms go through the real Cif(d).to_string()/Cif.from_string; TLC checks block names, item names, row alignment, value "
       "types and values against the original, then runs the spec's own parser on the written bytes and demands agreement with the library's parser.",
       "Domain guard evaluated by TLC (empty blocks/strings, strings needing nested quotes, number-like strings are out of domain as the statement says); floats shipped as exact digit sequences, loop-cell floats compared to 5e-13 + 1e-15|x|.")
 
